@@ -105,7 +105,7 @@ def leaf_kinds(T, acc):
             leaf_kinds(f[1], acc)
         for b in _bases(T):
             leaf_kinds(b, acc)
-    elif tag in ("newtype", "fwd", "tvarc", "tvarb", "stype"):
+    elif tag in ("newtype", "fwd", "tvarc", "tvarb", "stype", "alias695"):
         leaf_kinds(T[2], acc)
     elif tag in ("utuple", "ustar"):
         for e in T[1]:
